@@ -51,17 +51,27 @@ impl DimensionRegistry {
                 let lhs = self.get_base_representation(lhs)?;
                 let rhs = self.get_base_representation(rhs)?;
 
-                Ok(lhs * rhs)
+                lhs.try_mul(rhs).ok_or(DimensionRegistryError {
+                    span: expression.full_span(),
+                    err: RegistryError::ExponentOverflow,
+                })
             }
             TypeExpression::Divide(_, lhs, rhs) => {
                 let lhs = self.get_base_representation(lhs)?;
                 let rhs = self.get_base_representation(rhs)?;
 
-                Ok(lhs / rhs)
+                lhs.try_div(rhs).ok_or(DimensionRegistryError {
+                    span: expression.full_span(),
+                    err: RegistryError::ExponentOverflow,
+                })
             }
-            TypeExpression::Power(_, expr, _, outer_exponent) => {
-                Ok(self.get_base_representation(expr)?.power(*outer_exponent))
-            }
+            TypeExpression::Power(_, expr, _, outer_exponent) => self
+                .get_base_representation(expr)?
+                .try_power(*outer_exponent)
+                .ok_or(DimensionRegistryError {
+                    span: expression.full_span(),
+                    err: RegistryError::ExponentOverflow,
+                }),
         }
     }
 
